@@ -119,9 +119,15 @@ fn exercise_empty<T: Elem + SatisfyTraits<Tr>, Tr: TrX + ?Sized, MS: MX, MT: MX>
 impl<T: Elem + SatisfyTraits<Tr>, M: MX, Tr: TrX + ?Sized> World<T, M, Tr> {
     pub fn do_clone(&mut self, then: u8, out: &mut Out) {
         let len = self.ma.len();
-        let before = elem::with_reg(|r| r.clones + r.zst_clones);
+        let before = elem::with_reg(|r| { r.clone_src_n = 0; r.clones + r.zst_clones });
         let a = &self.a;
         let r = guarded(|| Tr::clone_vec(a));
+        // `Clone` runs on the source's elements themselves (a bitwise stand-in is not the element: interior state, address)
+        if T::SIZE != 0 && len > 0 {
+            let base = self.a.downcast_ref::<T>().unwrap().as_ptr() as usize;
+            let (lo, hi, n) = elem::with_reg(|r| (r.clone_src_min, r.clone_src_max, r.clone_src_n));
+            if n > 0 && (lo < base || hi >= base + len * T::SIZE) { out.fail(Class::Vec, "clone-of-stand-in", format!("Clone was called on values at {lo:#x}..={hi:#x}, the source's elements live at {base:#x}+{}", len * T::SIZE)); }
+        }
         let mut c = match r {
             Ok(c) => c,
             Err(Caught::Injected) => { out.faulted = true; return; }
